@@ -7,6 +7,7 @@ open DepsDev.Resolve.Maven
 
   resolve U=<universe> T=<tables> root=<name>@<version>
       → `ok p=<passes> N=<root>;<nodes sorted> E=<edges sorted | ->` | `err incompatible|notfound|other`
+  defaultkeys U=<universe>      → `ok true|false`   (`DefaultKeys`, the hypothesis of `m1_partial`)
 -/
 
 namespace C07Driver
@@ -133,7 +134,18 @@ def showGraph (g : Graph) : String :=
   let es := if edges.isEmpty then "-" else ";".intercalate edges
   "N=" ++ ";".intercalate nodes ++ " E=" ++ es
 
+/-- `defaultkeys U=<universe>`: the hypothesis of `m1_partial` (classifier of F-C07-classifier). -/
+def handleKeys (us : String) : String :=
+  if !us.startsWith "U=" then "bad-op" else
+  let us := (us.drop 2).toString
+  match (if us == "-" then some [] else (us.splitOn ";").mapM parsePackage) with
+  | none => "bad-op"
+  | some pkgs => if DefaultKeys { pkgs := pkgs, reqs := [] } then "ok true" else "ok false"
+
 def handle (f : List String) : String :=
+  match f with
+  | ["defaultkeys", us] => handleKeys us
+  | _ =>
   match parseLine f with
   | none => "bad-op"
   | some (u, root) =>
